@@ -13,12 +13,13 @@ EXTENDS Integers, Sequences, FiniteSets, TLC
 CONSTANTS PrefixRule, MaxHist, PairsAllowed     \* PairsAllowed: programs over ordered pairs of libraries as well as single ones
 
 \* the static world: modules and the command names their source text defines
-Mods == { <<"vlib_a", "cmds">>, <<"vlib_a", "sub", "cmds">>, <<"vlib_ab", "cmds">>, <<"vlib_c">>,
+Mods == { <<"vlib_a", "cmds">>, <<"vlib_a", "sub", "cmds">>, <<"vlib_ab", "cmds">>, <<"vlib_c">>, <<"xvlib_c">>,
           <<"mpilot", "libraries", "eems", "csv", "io">>, <<"mpilot", "libraries", "eems", "netcdf", "io">> }
 Names(m) == CASE m = <<"vlib_a", "cmds">> -> {"Foo", "Bar"}
               [] m = <<"vlib_a", "sub", "cmds">> -> {"Qux"}
               [] m = <<"vlib_ab", "cmds">> -> {"Foo", "Baz"}
               [] m = <<"vlib_c">> -> {"Foo"}
+              [] m = <<"xvlib_c">> -> {"Foo", "Bar"}            \* its name ends with "vlib_c": not part of that library either
               [] m = <<"mpilot", "libraries", "eems", "csv", "io">> -> {"EEMSRead", "EEMSWrite"}
               [] m = <<"mpilot", "libraries", "eems", "netcdf", "io">> -> {"EEMSRead", "EEMSWrite"}
               [] OTHER -> {}
